@@ -45,6 +45,9 @@ type C17Case struct {
 	// contents (double quotes, brackets, a trailing backslash) reach the engine untouched
 	MixBT   []string `json:"mix_bt,omitempty"`
 	BSQuote bool     `json:"bsquote,omitempty"` // variant spells a quote inside a literal as \' (canonical: '')
+	// Rev: the options of the variant are listed in the opposite order (IdomaticArrays before
+	// PostgresEscapingDialect before Wrapped): an option set means the same in any order
+	Rev bool `json:"rev,omitempty"`
 }
 
 var c17LitPieces = []string{"\"", "'", "`", "\\", "[", "]", "é", "日本", "a", " ", "[1,2]", "\"x\"", "\\\"", "]]", "[[", "''", "b", "😀", "\\\\", "ARRAY(", ")", ","}
@@ -130,6 +133,7 @@ func genC17(t *rapid.T) any {
 		c.Pad = rapid.IntRange(0, 3).Draw(t, "pad") == 0
 	}
 	c.BSQuote = rapid.IntRange(0, 2).Draw(t, "bsquote") == 0
+	c.Rev = rapid.IntRange(0, 2).Draw(t, "rev") == 0
 	if rapid.IntRange(0, 3).Draw(t, "poison") == 0 {
 		c.Poison = rapid.SampledFrom([]string{"SELECT \"k\" FROM \"t\" WHERE \"s\" = 'bob\\", "SELECT \"k\\", "SELECT [1, [2 FROM \"t\"", "SELECT 1] FROM t", "SELECT 'abc\\", "SELECT \"a FROM t",
 			"SELECT ']' , [ FROM \"t\"", "SELECT \"x\" FROM \"nosuch\" WHERE", "SELECT `k` FROM `t` WHERE s = 'it''s \\"}).Draw(t, "poisontext")
@@ -320,9 +324,9 @@ func checkC17(c *C17Case) Result {
 		res.Labels = append(res.Labels, "same-text-first-run-under-other-options")
 	}
 	canon := Run(canonDoc, canonSQL, Opts{})
-	variant := Run(val.CopyMap(c.Doc), varSQL, Opts{Wrapped: c.Wrapped, PG: c.PG, Arrays: c.Arrays})
+	variant := Run(val.CopyMap(c.Doc), varSQL, Opts{Wrapped: c.Wrapped, PG: c.PG, Arrays: c.Arrays, Rev: c.Rev})
 	res.Execs += 2
-	o := Opts{Wrapped: c.Wrapped, PG: c.PG, Arrays: c.Arrays}
+	o := Opts{Wrapped: c.Wrapped, PG: c.PG, Arrays: c.Arrays, Rev: c.Rev}
 	res.Labels = append(res.Labels, "opts:"+o.String())
 	if c.Nest != "" {
 		res.Labels = append(res.Labels, "nested-in:"+c.Nest)
